@@ -695,6 +695,15 @@ dgsitrf(superlu_options_t *options, SuperMatrix *A, int relax, int panel_size,
     SUPERLU_FREE (relax_fsupc);
     SUPERLU_FREE (amax);
     if ( dwork2 ) SUPERLU_FREE (dwork2);
+    if ( fact == SamePattern_SameRowPerm ) {
+	/* The caller's L and U own the factor storage; expansions of this
+	   call may have moved it. Record where it is now, so that the
+	   caller can still release it. */
+	((SCformat *)L->Store)->nzval = Glu->lusup;
+	((SCformat *)L->Store)->rowind = Glu->lsub;
+	((NCformat *)U->Store)->nzval = Glu->ucol;
+	((NCformat *)U->Store)->rowind = Glu->usub;
+    }
     if ( Glu->MemModel == SYSTEM && fact != SamePattern_SameRowPerm ) {
 	SUPERLU_FREE (Glu->lusup);
 	SUPERLU_FREE (Glu->ucol);
